@@ -319,13 +319,19 @@ func (evm *EVM) Call(ctx context.Context, caller ethvm.ContractRef, addr common.
 		if len(code) == 0 {
 			ret, err = nil, nil // gas is unchanged
 		} else {
+			// the join point messages declare data as a required field: an
+			// empty calldata must be passed as an empty, non-nil byte slice
+			jpData := input
+			if jpData == nil {
+				jpData = []byte{}
+			}
 			if evm.IsExecuteJP {
 				preCallResult := djpm.AspectInstance().PreContractCall(ctx, caller.Address(), addr, input, int64(blockNum), gas, value, &types.PreContractCallInput{
 					Call: &types.PreExecMessageInput{
 						From:  caller.Address().Bytes(),
 						To:    addr.Bytes(),
 						Index: &currentCall.Index,
-						Data:  input,
+						Data:  jpData,
 						Value: value.Bytes(),
 						Gas:   &gas,
 					},
@@ -367,7 +373,7 @@ func (evm *EVM) Call(ctx context.Context, caller ethvm.ContractRef, addr common.
 						From:  caller.Address().Bytes(),
 						To:    addr.Bytes(),
 						Index: &currentCall.Index,
-						Data:  input,
+						Data:  jpData,
 						Value: value.Bytes(),
 						Gas:   &gas,
 						Ret:   ret,
